@@ -13,8 +13,28 @@ var vSessionCommands = [][]string{
 	{"CLIENT", "NO-EVICT", "on"}, {"CLIENT", "SETINFO", "LIB-NAME", "x"}, {"HELLO", "3"}, {"HELLO"}, {"SELECT", "1"},
 	{"MULTI"}, {"EXEC"}, {"DISCARD"}, {"WATCH", "k"}, {"UNWATCH"}, {"INFO"}, {"DBSIZE"}, {"FLUSHDB"}, {"FLUSHALL"},
 	{"PING"}, {"SET", "k", "v"}, {"GET", "k"}, {"COMMAND", "COUNT"}, {"CLIENT", "KILL", "ID", "999"}, {"CLIENT", "UNBLOCK", "999"},
-	{"COPY", "k", "k9", "DB", "1", "REPLACE"},
+	{"COPY", "k", "k9", "DB", "1", "REPLACE"}, {"COPY", "k", "k9", "DB", "0", "REPLACE"},
+	// programs (see vSessionRun): switch to another database, write there, switch back
+	{"@VISIT", "1", "0"}, {"@VISIT", "0", "1"},
 }
+
+// vSessionRun issues entry i of vSessionCommands on c; entries starting with
+// '@' are short programs.
+func vSessionRun(c *clientState, i int) {
+	t := vSessionCommands[i]
+	if t[0] == "@VISIT" {
+		vCmd(c, "SELECT", t[1])
+		vCmd(c, "SET", "k", "v")
+		vCmd(c, "SELECT", t[2])
+		return
+	}
+	vCmd(c, t...)
+}
+
+// vSessionMirror: for a command that reaches from one database into
+// another, the command that does the same in the opposite direction when it
+// is run by a connection working in database 1.
+var vSessionMirror = map[int]int{25: 26, 27: 28}
 
 func vSessionLabel(i int) string { return "cmd" + vItoa(i) }
 
@@ -24,7 +44,9 @@ func VerifH_c16_session() {
 	VerifSetup()
 	disp := vNewServer()
 	cs := vNewClientOn(disp)
-	vNewClientOn(disp) // a second connection exists
+	second := vNewClientOn(disp) // a second connection exists, working in another database
+	vCmd(second, "SELECT", "1")
+	vCmd(second, "SET", "k", "other")
 	i := vChoice("cmd", len(vSessionCommands))
 	inMulti := vBool("in-multi") && vSessionCommands[i][0] != "MULTI"
 	if inMulti {
@@ -36,7 +58,7 @@ func VerifH_c16_session() {
 	}
 	vFieldLogBegin(label, cs)
 	panicked, _ := vCatch(func() {
-		vCmd(cs, vSessionCommands[i]...)
+		vSessionRun(cs, i)
 		if inMulti && cs.cmdQueue != nil {
 			// the queued command runs inside EXEC, under the transaction's
 			// ownership of the database
@@ -84,10 +106,10 @@ func VerifH_c16_pair() {
 		return
 	}
 	if a < n {
-		vCatch(func() { vCmd(c1, vSessionCommands[a]...) })
+		vCatch(func() { vSessionRun(c1, a) })
 	}
 	if b < n {
-		vCatch(func() { vCmd(c2, vSessionCommands[b]...) })
+		vCatch(func() { vSessionRun(c2, b) })
 	}
 }
 
@@ -111,6 +133,6 @@ func VerifH_c13_deadlock_pair() {
 		vAssert("both-command-loops-finish", vDeadlockPair(disp, c1, c2, a, b, am, bm))
 		return
 	}
-	vCatch(func() { vCmd(c1, vSessionCommands[a]...) })
-	vCatch(func() { vCmd(c2, vSessionCommands[b]...) })
+	vCatch(func() { vSessionRun(c1, a) })
+	vCatch(func() { vSessionRun(c2, b) })
 }
